@@ -170,7 +170,6 @@ func sha(s string) string {
 	return hex.EncodeToString(h[:6])
 }
 
-
 // sortedSlices: variables passed to sort.Strings / sort.Slice / slices.Sort anywhere in the body.
 func sortedSlices(body *ast.BlockStmt) map[string]bool {
 	out := map[string]bool{}
